@@ -306,7 +306,7 @@ def gen_minmax2():
         for fs in ("#sum", "#sum+"):
             for use in ("a(S) :- S = {fs}{{V,x : m(V)}}.", "a(S) :- S = {fs}{{V,x : m(V); 1,y : p(1)}}.", "a(S) :- S = {fs}{{V,x : m(V), V > -1}}.", "a(S) :- S = {fs}{{V,V : m(V)}}.", "a(S) :- S = {fs}{{-V,x : m(V)}}.", ":~ m(V). [V@1]", ":~ m(V), V > -1. [V@1]", ":~ m(V). [V@1,V]", ":~ m(V). [-V@1]", ":~ m(V). [V@1] :~ p(X). [X@1]"):
                 yield f"{{p(-2..1)}}. m(V) :- V = {fn}{{X : p(X)}}. " + use.format(fs=fs) + show, [""]
-            for use in (":~ m(G,V). [V@1]", ":~ m(G,V). [V@1,G]", "a(S) :- S = {fs}{{V : m(G,V)}}.", "a(S) :- S = {fs}{{V,G : m(G,V)}}.", "a(G) :- g(G), 0 < {fs}{{V : m(G,V)}}."):
+            for use in (":~ m(_,V). [V@1]", "mm(V) :- m(_,V). :~ mm(V). [V@1]", ":~ m(G,V). [V@1]", ":~ m(G,V). [V@1,G]", "a(S) :- S = {fs}{{V : m(G,V)}}.", "a(S) :- S = {fs}{{V,G : m(G,V)}}.", "a(G) :- g(G), 0 < {fs}{{V : m(G,V)}}."):
                 yield f"g(1..2). {{p(G,-2..1)}} :- g(G). m(G,V) :- g(G), V = {fn}{{X : p(G,X)}}. " + use.format(fs=fs) + show, [""]
 
 
